@@ -167,6 +167,120 @@ def exec (cfg : Cfg) (env : Env) (ops : List Op) (prog : List (Nat × Instr)) : 
 def execSource (cfg : Cfg) (env : Env) (ops : List Op) (stmts : List (Nat × String × String)) : Option Outcome :=
   (stmts.mapM parseStmt).map (exec cfg env ops)
 
+/-! ### the methods of the two response wrappers as programs read off the source
+
+Same table, same reading: each statement of a wrapper method has a meaning as a `WInstr` acting on the wrapper's
+fields (`headerWritten`, `status`, `body`) and on the underlying writer `w`; `wexec` runs a method's statement list.
+Props/C14Flow proves that the statement lists of the source run to exactly `Strict.step` / `Strict.flushOut` /
+`Warn.step` — the wrapper state machines of KinModel/Middleware.lean. -/
+
+inductive WInstr
+  | ifNotHWInfo          -- `if !wr.headerWritten && isInformational(status) {`
+  | ifNotHW              -- `if !wr.headerWritten {`
+  | ifHW                 -- `if wr.headerWritten {`
+  | ifOk                 -- `if ok {` after `fl, ok := wr.w.(http.Flusher)`: both transports' writers are Flushers
+  | ret                  -- `return`, `return err`, `return nil`
+  | setStatus            -- `wr.status = status`
+  | setHW                -- `wr.headerWritten = true`
+  | selfWriteHeader200   -- `wr.WriteHeader(http.StatusOK)`: the wrapper's own WriteHeader program
+  | bufWrite             -- `return wr.body.Write(b)`
+  | teeWrite             -- `return wr.tee.Write(b)`, tee = io.MultiWriter(w, &wr.body) (table WrapperMethods)
+  | rawWriteHeaderArg    -- `wr.w.WriteHeader(status)`
+  | rawWriteHeaderRec    -- `wr.w.WriteHeader(wr.status)`
+  | rawWriteBuf          -- `_, err := wr.w.Write(wr.body.Bytes())`
+  | assertFlusher        -- `fl, ok := wr.w.(http.Flusher)`
+  | flFlush              -- `fl.Flush()`
+  deriving DecidableEq, Repr
+
+def wMeaning : List ((String × String) × WInstr) :=
+  [(("if", "!wr.headerWritten && isInformational(status)"), .ifNotHWInfo),
+   (("return", "return"), .ret),
+   (("if", "!wr.headerWritten"), .ifNotHW),
+   (("assign", "wr.status = status"), .setStatus),
+   (("assign", "wr.headerWritten = true"), .setHW),
+   (("call", "wr.WriteHeader(http.StatusOK)"), .selfWriteHeader200),
+   (("return", "return wr.body.Write(b)"), .bufWrite),
+   (("return", "return wr.tee.Write(b)"), .teeWrite),
+   (("if", "wr.headerWritten"), .ifHW),
+   (("call", "wr.w.WriteHeader(wr.status)"), .rawWriteHeaderRec),
+   (("call", "wr.w.WriteHeader(status)"), .rawWriteHeaderArg),
+   (("assign", "_, err := wr.w.Write(wr.body.Bytes())"), .rawWriteBuf),
+   (("return", "return err"), .ret),
+   (("return", "return nil"), .ret),
+   (("assign", "fl, ok := wr.w.(http.Flusher)"), .assertFlusher),
+   (("if", "ok"), .ifOk),
+   (("call", "fl.Flush()"), .flFlush)]
+
+def parseW (r : Nat × String × String) : Option (Nat × WInstr) :=
+  (wMeaning.lookup (r.2.1, r.2.2)).map (fun i => (r.1, i))
+
+/-- the fields of a wrapper (both wrapper types have the same three plus the underlying writer), the method's
+parameters (`status` / `b`) and the control state of the interpreter -/
+structure WSt where
+  hw : Bool
+  status : Nat
+  buf : Bytes
+  client : Client
+  arg : Nat := 0
+  bs : Bytes := []
+  returned : Bool := false
+  skip : Option Nat := none
+  stuck : Bool := false
+  deriving DecidableEq, Repr
+
+def WSt.ofStrict (w : Strict) : WSt := { hw := w.headerWritten, status := w.status, buf := w.buf, client := w.client }
+def WSt.toStrict (s : WSt) : Strict := { headerWritten := s.hw, status := s.status, buf := s.buf, client := s.client }
+def WSt.ofWarn (w : Warn) : WSt := { hw := w.headerWritten, status := w.status, buf := w.buf, client := w.client }
+def WSt.toWarn (s : WSt) : Warn := { headerWritten := s.hw, status := s.status, buf := s.buf, client := s.client }
+
+/-- one executed statement; `wh` is what a call of the wrapper's own WriteHeader does -/
+def wrun (wh : WSt → Nat → WSt) (st : WSt) (d : Nat) : WInstr → WSt
+  | .ifNotHWInfo => if !st.hw && isInfo st.arg then st else { st with skip := some d }
+  | .ifNotHW => if !st.hw then st else { st with skip := some d }
+  | .ifHW => if st.hw then st else { st with skip := some d }
+  | .ifOk => st
+  | .ret => { st with returned := true }
+  | .setStatus => { st with status := st.arg }
+  | .setHW => { st with hw := true }
+  | .selfWriteHeader200 => wh st 200
+  | .bufWrite => { st with buf := st.buf ++ st.bs, returned := true }
+  | .teeWrite => { st with client := st.client.write st.bs, buf := st.buf ++ st.bs, returned := true }
+  | .rawWriteHeaderArg => { st with client := st.client.writeHeader st.arg }
+  | .rawWriteHeaderRec => { st with client := st.client.writeHeader st.status }
+  | .rawWriteBuf => { st with client := st.client.write st.buf }
+  | .assertFlusher => st
+  | .flFlush => { st with client := st.client.flush }
+
+def wstep (wh : WSt → Nat → WSt) (st : WSt) (row : Nat × WInstr) : WSt :=
+  if st.returned then st else
+  match st.skip with
+  | some k => if k < row.1 then st else wrun wh { st with skip := none } row.1 row.2
+  | none => wrun wh st row.1 row.2
+
+def wexec (wh : WSt → Nat → WSt) (prog : List (Nat × WInstr)) (st : WSt) : WSt :=
+  let r := prog.foldl (wstep wh) st
+  { r with returned := false, skip := none, arg := 0, bs := [] }
+
+/-- a WriteHeader program does not call WriteHeader -/
+def noSelf (st : WSt) (_ : Nat) : WSt := { st with stuck := true }
+
+/-- `wr.WriteHeader(n)` by the given WriteHeader program, inside another method of the wrapper -/
+def selfCall (whProg : List (Nat × WInstr)) (st : WSt) (n : Nat) : WSt :=
+  let r := wexec noSelf whProg { st with arg := n, returned := false, skip := none }
+  { r with arg := st.arg, bs := st.bs }
+
+/-- the method programs of a wrapper type in a source table, `none` when a statement has no meaning -/
+def wProg (stmts : List (Nat × String × String)) : Option (List (Nat × WInstr)) := stmts.mapM parseW
+
+/-! the programs the wrapper methods of the source must parse to -/
+def strictWH : List (Nat × WInstr) := [(0, .ifNotHWInfo), (1, .ret), (0, .ifNotHW), (1, .setStatus), (1, .setHW)]
+def strictW : List (Nat × WInstr) := [(0, .ifNotHW), (1, .selfWriteHeader200), (0, .bufWrite)]
+def strictFl : List (Nat × WInstr) := [(0, .ifHW), (1, .rawWriteHeaderRec), (0, .rawWriteBuf), (0, .ret)]
+def warnWH : List (Nat × WInstr) :=
+  [(0, .ifNotHWInfo), (1, .rawWriteHeaderArg), (1, .ret), (0, .ifNotHW), (1, .setStatus), (1, .setHW), (0, .rawWriteHeaderRec)]
+def warnW : List (Nat × WInstr) := [(0, .ifNotHW), (1, .selfWriteHeader200), (0, .teeWrite)]
+def warnF : List (Nat × WInstr) := [(0, .assertFlusher), (0, .ifOk), (1, .flFlush)]
+
 /-! concrete inputs of the witness theorems in Props/C14Flow -/
 def envBadReq : Env := { routeFound := true, reqOK := false, respOK := fun _ _ _ => true }
 def envBadResp : Env := { routeFound := true, reqOK := true, respOK := fun _ _ _ => false }
